@@ -264,14 +264,19 @@ Definition fresh_dt (g : graph) (ds : list dt) : dt := S (list_max (all_provs g 
 (* returns the graph (with the merge plugin registered if needed) and the targets handed to get_components;
    single-thread processor / allow_multiple=False: different kinds are an error *)
 Definition get_iter_rewrite (g : graph) (kinds : list nat) (targets : list dt) : res (graph * list dt) :=
-  match dedup_keep_order targets [] with
+  match targets with
   | [] => Ok (g, [])
   | [t] => Ok (g, [t])
-  | t :: rest =>
-      if forallb (fun x => Nat.eqb (kind_of kinds x) (kind_of kinds t)) rest then
-        let tmp := fresh_dt g targets in
-        Ok (g ++ [mkplugin [(tmp, SAVEWHEN_EXPLICIT)] (t :: rest) true], [tmp])
-      else Err E_RUNTIME
+  | _ =>
+      (* `len(targets) > 1` is tested BEFORE duplicates are removed, so ("a", "a") is merged too *)
+      match dedup_keep_order targets [] with
+      | [] => Ok (g, [])
+      | t :: rest =>
+          if forallb (fun x => Nat.eqb (kind_of kinds x) (kind_of kinds t)) rest then
+            let tmp := fresh_dt g targets in
+            Ok (g ++ [mkplugin [(tmp, SAVEWHEN_EXPLICIT)] (t :: rest) true], [tmp])
+          else Err E_RUNTIME
+      end
   end.
 
 Definition get_iter_plan (g : graph) (kinds : list nat) (cx : context) (rq : request) : res components :=
